@@ -34,6 +34,11 @@ def gen(rng, tier):
           'levels': [rng.choice(['DEBUG', 'INFO', 'WARNING', 'ERROR']) for _ in range(5)],
           'gap': rng.choice([0, 0, 0, 0.0001]), 'tail_sleep': rng.choice([0, 0, 0.001]), 'accessor': rng.choice(['join', 'result', 'join']),
           'via': rng.choice(['process', 'process', 'process', 'servlet', 'pool'])}
+    if sc['via'] == 'process' and rng.random() < 0.35:
+        # accessors that time out while the child is still alive and still logging
+        sc['early'] = [rng.choice(['join_t', 'result_t', 'exception_t', 'done']) for _ in range(rng.choice([1, 2, 3]))]
+        sc['gap'] = rng.choice([0.0001, 0.001])
+        sc['k'] = max(sc['k'], 4)
     if sc['via'] != 'process':
         sc['ending'] = 'return'
         sc['k'] = min(sc['k'], 300)
@@ -191,6 +196,22 @@ def run(sim, sc):
     out = {}
 
     def waiter():
+        from mpservice._common import TimeoutError as MPTimeout
+        for a in sc.get('early', []):
+            try:
+                if a == 'join_t':
+                    p.join(0.0003)
+                elif a == 'result_t':
+                    p.result(0.0003)
+                elif a == 'exception_t':
+                    p.exception(0.0003)
+                else:
+                    p.done()
+            except BaseException as e:  # the child may already be done: join/result then report its (possibly SystemExit) failure
+                import sim.core as core
+                if isinstance(e, core.SimAbort):
+                    raise
+            sim.count('early_accessor_' + a)
         try:
             if sc['accessor'] == 'join':
                 p.join()
